@@ -117,6 +117,22 @@ CHECKS.update({
         design_ref="DESIGN.md section 5 C13"),
 })
 
+CHECKS.update({
+    "C15": dict(
+        category="fault_enumeration",
+        technique="TLA+ spec of the write pipeline with one fault (spec/ISRewrite.tla) model-checked by TLC; every call boundary x fault kind injected into real sessions; each execution validated by TLC as a trace (spec/TraceRewrite.tla)",
+        text="TLC checks Atomic / NoGarbage / NoDangling / PersistFirst / AlwaysPopped / Degrades and the liveness "
+             "property Completes on the pipeline model with an exception, crash, formatter error or formatter garbage at "
+             "any step; the fault-free run of each scenario yields the list of real call boundaries (audit events, every "
+             "open of a test file, every formatter invocation) and every boundary x applicable fault kind is executed "
+             "on a fresh project, followed by a real next session start; each recorded execution (events + observed final "
+             "state) is validated by TLC against the specification",
+        design_ref="DESIGN.md section 5 C15",
+        note="one fault per run; boundaries are those visible as audit events / wrapped calls from the start of "
+             "pytest_sessionfinish; a crash is os._exit at the boundary; the formatter contract (garbage = unparsable) "
+             "is the property's own"),
+})
+
 NOT_YET = {
 }
 
